@@ -400,7 +400,7 @@ fn dict_spelling(rng: &mut Rng, descr: &str, fortran: bool, shape: &[usize], fam
     }
 }
 
-fn frame(major: u8, minor: u8, dict: &str, body: &[u8], rng: &mut Rng, pad: bool) -> Vec<u8> {
+pub fn frame(major: u8, minor: u8, dict: &str, body: &[u8], rng: &mut Rng, pad: bool) -> Vec<u8> {
     let w = if major == 1 { 2 } else { 4 };
     let mut d = dict.as_bytes().to_vec();
     if pad { let total = 8 + w + d.len() + 1; let padn = (64 - total % 64) % 64 + if rng.chance(1, 4) { 64 } else { 0 }; d.extend(std::iter::repeat(b' ').take(padn)); d.push(b'\n'); }
